@@ -446,6 +446,29 @@ fn sw_x_with_rhs_in_subfield<P: sw::SWCurveConfig>(g: &mut G<'_>) -> Option<P::B
     None
 }
 
+/// A point of order two (y = 0, the y = -y sign tie) when the curve has one: multiply a
+/// random curve point by r * cofactor / 2.  None when the cofactor is odd or the draw
+/// lands on the identity.
+fn sw_two_torsion_point<P: sw::SWCurveConfig>(g: &mut G<'_>) -> Option<sw::Affine<P>> {
+    if P::COFACTOR.is_empty() || P::COFACTOR[0] & 1 == 1 {
+        return None;
+    }
+    let mut h = BigUint::default();
+    for (i, l) in P::COFACTOR.iter().enumerate() {
+        h += BigUint::from(*l) << (64 * i);
+    }
+    let k = (h >> 1u32) * scalar_modulus::<P>();
+    let limbs: Vec<u64> = k.to_u64_digits();
+    for _ in 0..4 {
+        let q = sw_random_curve_point::<P>(g);
+        let t = q.mul_bigint(&limbs).into_affine();
+        if !t.infinity && t.y.is_zero() && ref_sw_on_curve::<P>(&t.x, &t.y) {
+            return Some(t);
+        }
+    }
+    None
+}
+
 fn gen_scalar<F: PrimeField>(g: &mut G<'_>) -> F {
     match g.rng.below(8) {
         0 => F::one(),
@@ -480,6 +503,9 @@ fn gen_sw_affine<P: sw::SWCurveConfig>(g: &mut G<'_>) -> sw::Affine<P> {
             } else {
                 sw_random_curve_point::<P>(g)
             }
+        },
+        7 | 8 | 9 if g.invalid_ok && !P::COFACTOR.is_empty() && P::COFACTOR[0] & 1 == 0 => {
+            sw_two_torsion_point::<P>(g).unwrap_or_else(|| sw_random_curve_point::<P>(g))
         },
         // curve points whose y has a zero coordinate (x^3+b in the prime subfield): sign-selection ties
         4 | 5 | 6 if g.invalid_ok && P::BaseField::extension_degree() == 2 => match sw_x_with_rhs_in_subfield::<P>(g) {
@@ -630,7 +656,12 @@ fn sw_encode<P: sw::SWCurveConfig>(x: &P::BaseField, y: &P::BaseField, flags: u8
 }
 
 fn sw_foreign<P: sw::SWCurveConfig>(g: &mut G<'_>, c: Compress) -> Option<(Vec<u8>, &'static str)> {
-    match g.rng.below(10) {
+    match g.rng.below(11) {
+        10 => {
+            let t = sw_two_torsion_point::<P>(g)?;
+            let f = if g.rng.chance(1, 2) { 0x80 } else { 0 };
+            Some((sw_encode::<P>(&t.x, &t.y, f, c), "point of order two (y = 0)"))
+        },
         9 => {
             // the image of a valid point under (x, y) -> (l^2 x, l^3 y): a point of the isomorphic
             // curve y^2 = x^3 + a l^4 x + b l^6 with the same group structure - off this curve,
@@ -996,10 +1027,10 @@ impl<E: Pairing> Sem for PairingOutput<E> {
         }
         match g.rng.below(6) {
             0 => PairingOutput::<E>::zero(),
-            1 if g.invalid_ok => {
-                if g.rng.chance(1, 2) {
+            1 | 2 if g.invalid_ok => {
+                if g.rng.chance(2, 3) {
                     // a fixed non-member or its inverse (see the note on cancelling elements above)
-                    let k = g.rng.below(2) as u64;
+                    let k = 0u64;
                     let mut r = simkit::Rng::new(0x1badc0de + k);
                     let f = E::TargetField::rand(&mut r);
                     if g.rng.chance(1, 2) {
